@@ -536,7 +536,10 @@ def run(check: core.Check) -> None:
     quick = check.tier == "quick"
     rnd = random.Random(check.seed)
     check.cov["information"] = {}
-    jobs = [("exhaustive", "ScopeGen", "ScopeGen.quick.cfg" if quick else "ScopeGen.thorough.cfg"),
+    # thorough: 5 statements / depth 3 / two variables and 6 statements / depth 3 / one variable (6 statements with two
+    # variables, ScopeGen.thorough.cfg, is > 4 * 10^8 states: beyond the 30-minute tier on a shared machine)
+    jobs = ([] if quick else [("exhaustive6-one-variable", "ScopeGen", "ScopeGen.thorough6x.cfg")]) + [
+            ("exhaustive", "ScopeGen", "ScopeGen.quick.cfg" if quick else "ScopeGen.thorough5.cfg"),
             ("emit", "ScopeGenEmit", "ScopeGen.emit3.cfg" if quick else "ScopeGen.emit4.cfg"),
             ("nested5", "ScopeGenEmit", "ScopeGen.nested5.cfg"),
             ("closure4", "ScopeGenEmit", "ScopeGen.closure.cfg"),
@@ -564,8 +567,9 @@ def run(check: core.Check) -> None:
         progs = rnd.sample(progs, limit)
     check.cov["exhaustive"] = exhaustive
     check.cov["rule"] = ("function bodies built by TLC's generator (ScopeGen.tla); non-trivial = contains a control construct. "
-                         "Slices: all bodies <= 4 (thorough 6) statements / 2 variables on the model (InvAll: reaching definitions "
-                         "and unused-variable reports), replayed <= 3 (4) statements; nested5 try/suppressing-with in if-branches; "
+                         "Slices: all bodies <= 4 statements / depth 2 / 2 variables on the model (thorough: 5 / depth 3 / 2 variables "
+                         "and 6 / depth 3 / 1 variable, without dead tails; InvAll: reaching definitions and unused-variable "
+                         "reports), replayed <= 3 (4) statements; nested5 try/suppressing-with in if-branches; "
                          "closure4; loopexit7 (break under try / suppressing with); loopcont6 (thorough 7 on the model: one loop, if / try "
                          "branches leaving by continue / break / return); finally5 (thorough 6: for + try, finally clause "
                          "reading what body / handlers / else bind, break / continue through finally); binders4 (thorough 5 on the "
